@@ -37,13 +37,8 @@ func init() {
 			}
 			return 144
 		},
-		Batches: func(t string) int {
-			if t == ev.Thorough {
-				return 16
-			}
-			return 8
-		},
-		Rule: "each case = 20 sequential histories + 1 concurrent scenario. Sequential history: 0-39 prefill sets, then 60-100 ops (set new/overwrite/same value, delete present/absent, get present/absent, snapshot, flush, reload by root hash as immutable or as the continuing mutable, clear-cache on mutable/snapshot, reset to a snapshot, mutable-from-immutable) on keys of 0-40 bytes from an 8-byte alphabet (prefix-of-other-key, extension, sibling nibble, long shared prefix, 32-byte random) and values of 1-100 bytes, bytes API or object API, lock-step with a Go map; each snapshot is compared in full (ordered iteration, Get of stored and near-miss keys, Filter for several prefixes, Hash nil iff empty) when taken, after later mutations and at the end; final content rebuilt 3x in random order with random snapshot/flush/cache/reload regimes and once as superset-then-delete: all roots must be equal. Concurrent scenario: 8 reader goroutines (Get/iterate/Filter/Hash/GetProof) on one snapshot vs its model while the mutator sets/deletes/snapshots/flushes/clears cache. Non-trivial = distinct sequential history with >=1 delete of a present key, >=1 overwrite, >=1 snapshot re-checked after a later mutation, >=1 flush+reload and >=2 keys at the end.",
+		Batches: func(t string) int { return 16 },
+		Rule:    "each case = 20 sequential histories + 1 concurrent scenario. Sequential history: 0-39 prefill sets, then 60-100 ops (set new/overwrite/same value, delete present/absent, get present/absent, snapshot, flush, reload by root hash as immutable or as the continuing mutable, clear-cache on mutable/snapshot, reset to a snapshot, mutable-from-immutable) on keys of 0-40 bytes from an 8-byte alphabet (prefix-of-other-key, extension, sibling nibble, long shared prefix, 32-byte random) and values of 1-100 bytes, bytes API or object API, lock-step with a Go map; each snapshot is compared in full (ordered iteration, Get of stored and near-miss keys, Filter for several prefixes, Hash nil iff empty) when taken, after later mutations and at the end; final content rebuilt 3x in random order with random snapshot/flush/cache/reload regimes and once as superset-then-delete: all roots must be equal. Concurrent scenario: 8 reader goroutines (Get/iterate/Filter/Hash/GetProof) on one snapshot vs its model while the mutator sets/deletes/snapshots/flushes/clears cache. Non-trivial = distinct sequential history with >=1 delete of a present key, >=1 overwrite, >=1 snapshot re-checked after a later mutation, >=1 flush+reload and >=2 keys at the end.",
 		MinNonTrivial: func(t string) int {
 			if t == ev.Thorough {
 				return 40000
@@ -811,5 +806,6 @@ func concScenario(c *ev.Ctx, r *rand.Rand) {
 	}
 	_ = earlier
 	c.Count("concurrent_scenarios", 1)
+	c.Count("concurrent_goroutine_runs_without_race_report", readers+1)
 	c.Distinct("concurrent_snapshot_states", prepName+"/"+f.Kind())
 }
